@@ -288,7 +288,7 @@ func Replacements() []any {
 		"str", "", 0, -1, 3.5, true, nil, []any{}, []any{"a", 1, nil}, M{}, M{kv("k", "v")},
 		[]any{M{kv("a", M{kv("b", []any{M{kv("c", 1)}})})}}, math.NaN(), math.Inf(1), long, "re:[", "`echo x`", "${UNSET_VAR_VERIF}",
 		M{kv("foo", "* * * * *")}, []any{[]any{"nested"}}, M{yaml.MapItem{Key: 1, Value: "intkey"}}, M{kv("type", 5)}, M{kv("type", "command"), kv("config", []any{1})},
-		"* * * *", "61 * * * *", "@every 1s", "TZ=UTC * * * * *", "SIGNOPE", []any{""}, "0x10", "~", "1e999", M{kv("start", 5)}, M{kv("start", []any{1})},
+		"* * * *", "61 * * * *", "@every 1s", "TZ=UTC * * * * *", "TZ=UTC", "CRON_TZ=", "TZ=Nowhere/X 1 1 1 1 1", "SIGNOPE", []any{""}, "0x10", "~", "1e999", M{kv("start", 5)}, M{kv("start", []any{1})},
 		M{kv("function", "nope"), kv("args", M{})}, M{kv("function", "fn1"), kv("args", M{kv("a", []any{1}), kv("b", 2)})},
 	}
 }
